@@ -50,8 +50,11 @@ LIf == LibBase @@ ("A" :> Plain(<<If(<<ParD(<<"1">>, <<>>)>>, <<Txt(<<"r">>), Ca
 LFan == LibBase @@ ("A" :> Plain(<<Call("A", <<>>), Txt(<<"+">>), Call("A", <<>>)>>))
 LSw == LibBase @@ ("A" :> Plain(<<Switch(<<Par(<<"1">>)>>, <<[key |-> <<"a">>, val |-> <<Call("A", <<Pos(<<Txt(<<"a">>)>>)>>)>>]>>, TRUE, <<Txt(<<"stop">>)>>)>>))
 LAlt == LibBase @@ ("A" :> Plain(<<Call("B", <<>>)>>)) @@ ("B" :> Plain(<<If(<<Call("A", <<>>)>>, <<Call("A", <<>>), Call("B", <<>>)>>, <<>>)>>))
+ParC(n, d) == [k |-> "pc", name |-> n, hasDef |-> TRUE, def |-> d]
+LName == LibBase @@ ("A" :> Plain(<<ParC(<<Txt(<<"x">>), Call("A", <<>>)>>, <<Txt(<<"p">>)>>), ParC(<<Txt(<<"y">>), Call("A", <<>>)>>, <<Txt(<<"q">>)>>)>>))
+LName2 == LibBase @@ ("A" :> Plain(<<ParC(<<Txt(<<"x">>), Call("B", <<>>)>>, <<Txt(<<"p">>)>>), ParC(<<Txt(<<"y">>), Call("B", <<>>)>>, <<Txt(<<"q">>)>>)>>)) @@ ("B" :> Plain(<<Call("A", <<>>)>>))
 LInvPre == LibBase @@ ("A" :> Plain(<<Inv("pre", <<>>)>>))
-CyclicLibs == {LSelf, LMut, LArg, LNamed, LDef, LIf, LFan, LSw, LAlt}
+CyclicLibs == {LSelf, LMut, LArg, LNamed, LDef, LIf, LFan, LSw, LAlt, LName, LName2}
 AcyclicLibs == {LibBase, LibIf}
 
 (* ---------------- pages ---------------- *)
